@@ -22,6 +22,7 @@ from hypothesis import strategies as st
 
 from vlib import urlref, urlgrammar as G
 from vlib.core import Campaign, hyp_campaign
+from vlib import fuzz as F
 
 PROPERTY = "C20"
 RULE = ("(a) protocol laws on grammar URLs, near-protocol strings ('//x', '://x', 'a//b', 'http:x', '', leading "
@@ -411,8 +412,22 @@ def _pathsplit_enum(acc, shard, nshards, seed, tier):
             acc.check({"kind": "pathsplit", "url": host + p + tail}, p.strip("/") != p, ["urlpathsplit"])
 
 
+def _fuzz_proto(data):
+    protos = ["http", "https", "ftp", "wss", "x", "https://", "HTTP", "custom:"]
+    u = F.text_from_bytes(data)
+    m = PROTO.match(u.strip())
+    if m and PROTO.match(u.strip()[m.end():]):
+        return None   # two stacked protocols ('////x', 'http://http://x'): outside the domain of the protocol laws (see ASSUMPTIONS)
+    return {"kind": "proto", "url": u, "protocol": protos[len(data) % len(protos)]}
+
+
+FUZZ_TARGETS = {"proto": (_fuzz_proto, lambda c: True, None)}
+
+
 def campaigns(tier, seed):
     return [
+        Campaign("protocol-coverage-guided", F.fuzz_campaign("proto", runs=(3000, 200000), max_len=40, dictionary=["http://", "https://", "//", "://", ":/", ":", "/", "ftp://", "x" * 64, "x" * 65, "a.com", "é", " "]), "atheris",
+                 bounds="libFuzzer over UTF-8 strings <= 40 bytes x 8 protocols"),
         Campaign("protocol-panel", _proto_panel, "enumeration", exhaustive=True,
                  bounds="%d strings x %d protocol spellings" % (len(PANEL_URLS), len(PROTOCOLS))),
         Campaign("protocol-random", hyp_campaign(_proto_strategy, lambda v: v,
